@@ -878,7 +878,8 @@ func (s *Spec) stateOracles(e *Exec, t, r []string) {
 		s.rmIndexed = false
 	case "ins", "many", "bulk":
 		// an update of that very object writes its file again (synchronous) or may be flushed at once (threshold)
-		if strings.Contains(strings.Join(t[1:], " "), fmt.Sprintf("R%d|", s.rmU)) || e.cfg.Async {
+		// (asynchronous: nothing is written before the next flush or tick, which reset the flag)
+		if !e.cfg.Async && strings.Contains(strings.Join(t[1:], " "), fmt.Sprintf("R%d|", s.rmU)) {
 			s.rmIndexed = false
 		}
 	}
